@@ -5,4 +5,30 @@ CLAIMED = {
   "text": "Sound static decision of the schedule-independent ingredients of C04: lock discipline on the transaction table, registration-before-transport-write ordering, one critical section for lookup+delete, reader/writer ownership partition. It does not enumerate schedules; 'none lost/none twice' follows from these invariants by argument (DESIGN §3 C04).",
   "note": "Trusts sync.Mutex, bufio.Writer semantics, go/ssa and the VTA call graph; entry points of the two goroutine roles are a frozen table.",
  },
+
+ "C03": {
+  "technique": "switch/table extraction over go/types + SSA (sibling agreement constructor<->dispatcher), critical-section and cursor-advance dataflow, bit-provenance abstract interpretation for Size/layout",
+  "text": "Sound static decision of C03's structural clauses: dispatch tables cover every constructible packet type and message type, responses are typed by one locked lookup+delete, decoders consume members in marshalling order advancing by Size() of the member just decoded. Values of arbitrary AMF0 trees and request histories are not enumerated.",
+  "note": "Dispatchers must stay switch statements (otherwise the rule reports 'undecided'); trusts reflect, encoding/binary, the C05 child contracts.",
+ },
+ "C15": {
+  "technique": "must-hold lockset dataflow (channel-mutex and select forms), path counting on the CFG condensation, guard/dominator facts, effect-summary ownership",
+  "text": "Sound static decision of the three schedule-independent invariants behind C15: every transport write under the write mutex, one critical section per frame, sticky close-sent latch checked and set under the mutex; plus the concurrent-safe API touching only immutable or lock-guarded fields. Interleavings are not enumerated.",
+  "note": "Trusts the 1-slot channel as mutex idiom, net.Conn.Write, sync.Mutex.",
+ },
+ "C18": {
+  "technique": "global-access discipline (sync/atomic or common mutex) + value-flow of the forwarded context + path counting of logger calls over SSA",
+  "text": "Sound static decision of: atomic id allocation, the logged id being the passed context's id (no shadowing), exactly one standard-logger call per logging call on every path. Interleavings are not enumerated; uniqueness/wholeness follow by argument.",
+  "note": "Trusts log.Logger's own mutex and sync/atomic.",
+ },
+ "C19": {
+  "technique": "dominator ordering of header/body writes, guard facts on content-type selection, constant/table extraction of the envelope, value-flow of codes over SSA",
+  "text": "Sound static decision of the handler-shape clauses of C19: headers before body on every path, envelope keys/constants, per-kind error routing with the error's own code, marshal failure -> error response, client success only under code==0.",
+  "note": "Trusts encoding/json and net/http; arbitrary value trees are not enumerated.",
+ },
+ "C20": {
+  "technique": "guard/dominator sign analysis of rate divisions, constant evaluation of window lengths, sibling agreement of getters, must-pass-through of state updates over SSA",
+  "text": "Sound static decision of: every rate division guarded by growth>0 and a positive divisor with the 0 branch, started-guard on all 8 getters, identical unit scaling among sibling getters, per-window formula ingredients and state updates. Numerical equality over histories is not decided.",
+  "note": "Trusts float64 arithmetic on positive finite operands.",
+ },
 }
